@@ -190,6 +190,7 @@ func runCheck(prop, tier string, seed int) (exit int) {
 	if d, ok := drivers[prop]; ok {
 		d(w, c)
 	}
+	c.RunRetries()
 	c.Assump = append(c.Assump, baseAssumptions...)
 	return c.Finish(w, func(r *ObResult) (bool, interface{}) { return replayScalar(w, c, r) })
 }
